@@ -78,11 +78,24 @@ func (p PdrIE) pdi() *ie.IE {
 			l = append(l, ie.NewUEIPAddress(uint8(p.UE[0]), "", "", 0, 0))
 		}
 	}
+	// the order of the IEs inside a grouped IE carries no meaning (TS 29.244): it is varied, as a function of the rule itself so
+	// that a replay sends the same bytes. Application ID and SDF filter keep their relative order (the later one wins in the code).
+	k := int(uint32(p.ID)+p.Prec) % 6
+	if n := len(l); n > 1 {
+		r := k % n
+		l = append(append([]*ie.IE{}, l[r:]...), l[:r]...)
+	}
+	var second []*ie.IE
 	if p.App != nil {
-		l = append(l, ie.NewApplicationID(*p.App))
+		second = append(second, ie.NewApplicationID(*p.App))
 	}
 	if p.Sdf != nil {
-		l = append(l, ie.NewSDFFilter(*p.Sdf, "", "", "", 1))
+		second = append(second, ie.NewSDFFilter(*p.Sdf, "", "", "", 1))
+	}
+	if k >= 3 {
+		l = append(second, l...)
+	} else {
+		l = append(l, second...)
 	}
 	return ie.NewPDI(l...)
 }
